@@ -84,7 +84,104 @@ fn hexs(b: &[u8]) -> String {
     b.iter().map(|x| format!("{x:02x}")).collect::<Vec<_>>().join(" ")
 }
 
+/// The very first frame of a message stream is the one the end of the stream cuts (optionally behind complete
+/// frames of unknown type, which are skipped in full): nothing of the message can be delivered and the call
+/// that waits for its head reports the truncation.
+fn run_first_frame_cut() -> RunOut {
+    let role_server = draw(2) == 0;
+    let head = if role_server { request_fields("POST", "/c02b") } else { response_fields(200) };
+    let mut bytes: Vec<u8> = vec![];
+    for _ in 0..draw_usize(3) {
+        bytes.extend(frame_forms(0x21 + 0x1f * draw(40) as u64, &body_bytes(draw_usize(6), 9)));
+    }
+    let (tail, what): (Vec<u8>, &'static str) = match draw(6) {
+        0 => {
+            let full = headers_frame(&head);
+            let keep = 2 + draw_usize(full.len() - 2);
+            (full[..keep.min(full.len() - 1)].to_vec(), "first.HEADERS.payload")
+        }
+        1 => (varint_any_form(frames::HEADERS), "first.HEADERS.length_missing"),
+        2 => {
+            let mut b = varint_any_form(frames::HEADERS);
+            let l = varint::encode_form(headers_frame(&head).len() as u64, *pick(&[1usize, 2, 3])).unwrap();
+            b.extend_from_slice(&l[..1 + draw_usize(l.len() - 1)]);
+            (b, "first.HEADERS.length")
+        }
+        3 => {
+            let t = varint::encode_form(*pick(&[1u64, 0x21]), *pick(&[1usize, 2, 3])).unwrap();
+            let keep = 1 + draw_usize(t.len() - 1);
+            (t[..keep.min(t.len() - 1)].to_vec(), "first.type")
+        }
+        4 => {
+            let n = 1 + draw_usize(30);
+            let mut b = varint_any_form(0x21 + 0x1f * draw(500) as u64);
+            b.extend(varint_any_form(n as u64));
+            b.extend(vec![0x77; draw_usize(n)]);
+            (b, "first.unknown.payload")
+        }
+        _ => (varint_any_form(0x21 + 0x1f * draw(100) as u64), "first.unknown.length_missing"),
+    };
+    bytes.extend_from_slice(&tail);
+    let mut cfg = NetCfg::drawn();
+    cfg.drop_send = 0;
+    cfg.drop_recv_stops = false;
+    let net = Net::new(cfg);
+    let peer = if role_server { CLIENT } else { SERVER };
+    let h3side = 1 - peer;
+    {
+        let mut n = net.lock().unwrap();
+        peer_control(&mut n, peer, &[]);
+        if role_server {
+            n.raw_open(0);
+        }
+        n.raw_write(0, peer, &bytes);
+        n.raw_fin(0, peer);
+    }
+    let rec: Rc<RefCell<Obs>> = Default::default();
+    let mut ex = Exec::new();
+    ex.spurious = draw(3) == 1;
+    if role_server {
+        run_server(&net, &rec, &mut ex, 0);
+    } else {
+        run_client(&net, &rec, &mut ex, 0);
+    }
+    let stop = ex.run(&mut NetWorld(net.clone()));
+    if let Some(p) = &ex.panic {
+        if p.in_harness() {
+            return RunOut { harness_error: Some(format!("harness panic: {} at {}", p.msg, p.loc)), ..Default::default() };
+        }
+        return RunOut::fail(Violation::new("C02.panic", format!("h3 panicked in task {}: {} at {}; stream [{}] + FIN", p.task, p.msg, p.loc, hexs(&bytes))).fact("at", p.loc.rsplit('/').next().unwrap_or("")).fact("cause", format!("api.cut.{what}")));
+    }
+    if stop == Stop::StepCap {
+        return RunOut::fail(Violation::new("C02.step_cap", "no quiescence".to_string()));
+    }
+    let o = rec.borrow().clone();
+    obs::note(|| format!("api mode: role_server={role_server} cut {what}; stream [{}] + FIN; observed {:?}", hexs(&bytes), o));
+    let closes = net.lock().unwrap().closes_by(h3side);
+    drop(ex);
+    let mk = |rule: &str, d: String| RunOut::fail(Violation::new(rule, format!("{d}; {} stream [{}] then FIN (the first frame that is not skipped is cut: {what}); observed {:?}; close codes {:?}", if role_server { "request" } else { "response" }, hexs(&bytes), o, closes.iter().map(|c| code_name(*c)).collect::<Vec<_>>())).fact("role", if role_server { "server" } else { "client" }).fact("cause", format!("api.cut.{what}")).fact("position", "first_frame"));
+    let fe = SOut::Conn(COut::Local(FRAME_ERROR));
+    match &o.resolve {
+        Some(Err(e)) if *e == fe => {}
+        Some(Err(e)) => return mk("C02.api_truncated_frame_wrong_error", format!("the call waiting for the head of the message reported {e}, expected the connection error H3_FRAME_ERROR")),
+        Some(Ok(())) => return mk("C02.api_truncated_frame_accepted", "a message head was delivered although no complete HEADERS frame was received".into()),
+        None => return mk("C02.api_truncated_frame_accepted", "the call waiting for the head of the message is still waiting although the stream has ended inside a frame".into()),
+    }
+    match &o.driver {
+        Some(Err(COut::Local(c))) if *c == FRAME_ERROR => {}
+        other => return mk("C02.api_driver_not_informed", format!("the connection driver reported {:?}, expected Local(H3_FRAME_ERROR)", other.as_ref().map(|r| r.as_ref().map_err(|e| e.to_string())))),
+    }
+    if closes.first() != Some(&FRAME_ERROR) {
+        return mk("C02.api_close_code_wrong", "the transport was not closed with H3_FRAME_ERROR first".into());
+    }
+    obs::count("probe.api_first_frame_cut");
+    RunOut::ok(obs::counter("net.chunk_delivered") >= 2)
+}
+
 pub fn run_message_stream() -> RunOut {
+    if draw(4) == 3 {
+        return run_first_frame_cut();
+    }
     let role_server = draw(2) == 0;
     let head = if role_server { request_fields("POST", "/c02b") } else { response_fields(200) };
     let mut bytes = headers_frame(&head);
